@@ -8,6 +8,7 @@ package comet
 
 import (
 	"fmt"
+	"path/filepath"
 	"strings"
 
 	vos "github.com/wizenheimer/comet/internal/vrt/vos"
@@ -26,13 +27,14 @@ var vC17Faults = []struct {
 }
 
 type vC17Sys struct {
-	c      *vCtx
-	cfgS   string
-	env    *vStoreEnv
-	h      [3]*PersistentHybridIndex
-	open   [3]bool
-	owner  int // -1 none, 0..2 handle, 9 foreign
-	nextID uint32
+	c       *vCtx
+	cfgS    string
+	env     *vStoreEnv
+	h       [3]*PersistentHybridIndex
+	open    [3]bool
+	owner   int // -1 none, 0..2 handle, 9 foreign
+	nextID  uint32
+	planted bool // the directory holds files the store did not write in this history
 }
 
 func (s *vC17Sys) Reset() {
@@ -44,6 +46,7 @@ func (s *vC17Sys) Reset() {
 	s.open = [3]bool{}
 	s.owner = -1
 	s.nextID = 1
+	s.planted = false
 }
 
 func (s *vC17Sys) cfg() *StorageConfig {
@@ -72,6 +75,11 @@ func (s *vC17Sys) Enabled() []vOp {
 	if s.owner == -1 {
 		ops = append(ops, vOp{K: "ForeignLock"})
 	}
+	if !s.planted {
+		// the directory's content is environment too: component files of a segment whose
+		// hybrid file is gone (an interrupted segment deletion) and a file of someone else
+		ops = append(ops, vOp{K: "Plant"})
+	}
 	if s.owner == 9 {
 		ops = append(ops, vOp{K: "ForeignExit"})
 	}
@@ -92,7 +100,7 @@ func (s *vC17Sys) Apply(op vOp, hist []vOp, check bool) {
 	}
 	h := func() []string { return vHistStrings(append(hist, op)) }
 	before := vCanonDir(s.env.fs)
-	hadLock := s.env.fs.Exists(vStoreDir + "/LOCK")
+	hadLock := s.env.fs.Exists(vLock())
 	switch op.K {
 	case "Open", "OpenFault":
 		if op.K == "OpenFault" {
@@ -129,20 +137,25 @@ func (s *vC17Sys) Apply(op vOp, hist []vOp, check bool) {
 				if op.K == "OpenFault" {
 					cause = "fault:" + vC17Faults[op.B].name
 				}
-				if !hadLock && s.env.fs.Exists(vStoreDir+"/LOCK") {
+				if !hadLock && s.env.fs.Exists(vLock()) {
 					cause += ":lock-left-behind"
 				}
-				if hadLock && !s.env.fs.Exists(vStoreDir+"/LOCK") {
+				if hadLock && !s.env.fs.Exists(vLock()) {
 					cause += ":existing-lock-removed"
 				}
 				s.c.Violation("failed-open-modified-directory", cause, s.cfgS, h(), fmt.Sprintf("before [%s] after [%s]", before, after))
 			}
 		}
+	case "Plant":
+		s.planted = true
+		for _, n := range []string{"vector_000007.bin.gz", "text_000007.bin.gz", "metadata_000007.bin.gz", "notes.txt"} {
+			s.env.fs.WriteFileRaw(filepath.Join(vStoreDir, n), []byte("left over "+n))
+		}
 	case "ForeignLock":
-		s.env.fs.WriteFileRaw(vStoreDir+"/LOCK", []byte("99999\n"))
+		s.env.fs.WriteFileRaw(vLock(), []byte("99999\n"))
 		s.owner = 9
 	case "ForeignExit":
-		s.env.fs.RemoveRaw(vStoreDir + "/LOCK")
+		s.env.fs.RemoveRaw(vLock())
 		s.owner = -1
 	case "Close":
 		var err error
@@ -165,7 +178,7 @@ func (s *vC17Sys) Apply(op vOp, hist []vOp, check bool) {
 			s.open[op.A] = false
 			if s.owner == op.A {
 				s.owner = -1
-				if check && s.env.fs.Exists(vStoreDir+"/LOCK") {
+				if check && s.env.fs.Exists(vLock()) {
 					s.c.Violation("lock-not-released-by-close", "", s.cfgS, h(), "LOCK still present after successful Close")
 				}
 			}
@@ -175,7 +188,7 @@ func (s *vC17Sys) Apply(op vOp, hist []vOp, check bool) {
 			}
 			if after := vCanonDir(s.env.fs); check && after != before {
 				cause := ""
-				if hadLock && !s.env.fs.Exists(vStoreDir+"/LOCK") {
+				if hadLock && !s.env.fs.Exists(vLock()) {
 					cause = "removed-successors-lock"
 				}
 				s.c.Violation("second-close-modified-directory", cause, s.cfgS, h(), fmt.Sprintf("before [%s] after [%s]", before, after))
@@ -221,7 +234,7 @@ func vLockReleasedEarly(log []vos.Op) string {
 func (s *vC17Sys) observe(h []string) {
 	// ownership invariant: LOCK present iff the model has an owner
 	s.c.Evaluations++
-	lock := s.env.fs.Exists(vStoreDir + "/LOCK")
+	lock := s.env.fs.Exists(vLock())
 	if lock != (s.owner != -1) {
 		s.c.Violation("lock-file-vs-owner", fmt.Sprintf("lock=%v owner=%d", lock, s.owner), s.cfgS, h, "LOCK presence does not match ownership")
 	}
